@@ -605,8 +605,15 @@ class AliasCycleSpec:
         bctx, pi, ei = body_ctx()
         ctx = infer_ctx({'body_ctx': bctx, 'idx': IntV(100, 32, 0), 'table': RefV(cell, 0)}, opaque=LazyV)
         env = MapV()
+        ri = [f for f, _ in struct_fields('InferCtx')].index('resolver')
+        before = ctx.fields[ri]
         r = it.run_body(body(r'^ty::infer::<impl at [^>]*>::make_ty_from_typeref$'), [RefV([ctx], 0), self.tref('A0'), RefV([env], 0)])
-        return {'cls': 'expanded:%s' % sorted(self.chosen.items()), 'ok': True, 'sample': {'aliases': {('A%d' % i): ('A%d' % j if j < self.n else 'Int') for i, j in self.chosen.items()}}}
+        g = {('A%d' % i): ('A%d' % j if j < self.n else 'Int') for i, j in self.chosen.items()}
+        rec = {'cls': 'expanded:%s' % sorted(self.chosen.items()), 'ok': True, 'sample': {'aliases': g}}
+        if ctx.fields[ri] is not before:
+            rec = {'cls': 'violation', 'ok': False, 'cex': {'aliases': g},
+                   'why': ['C09: after expanding the alias graph %s the inference context is left with the resolver of the module that declares the alias, not the one of the function being inferred: the types that follow in the signature are resolved in the wrong module' % g]}
+        return rec
 
     def on_panic(self, it, e):
         g = {('A%d' % i): ('A%d' % j if j < self.n else 'Int') for i, j in self.chosen.items()}
